@@ -382,6 +382,8 @@ def normalize(t) -> Rat:
         return C(t.val)
     if o == "var":
         return V(t.val)
+    if o == "pi":
+        return V("pi")  # a transcendental constant: an independent atom outside trigonometric functions
     if o == "fun":
         name, coords = t.val
         return A(("f", name, (), coords))
@@ -439,6 +441,21 @@ def _trig(o: str, a: T) -> Rat:
         return A((o, a.val))
     if a.op == "num" and a.val == 0:
         return C(0) if o == "sin" else C(1)
+    if a.op == "pi":
+        return C(0) if o == "sin" else C(-1)
+    if a.op in ("mul", "div") and any(x.op == "pi" for x in a.args):
+        # rational multiples of pi that occur in practice
+        other = [x for x in a.args if x.op != "pi"]
+        if len(other) == 1 and other[0].op == "num":
+            q = other[0].val if a.op == "mul" or a.args[0].op != "pi" else None
+            if a.op == "div" and a.args[0].op == "pi":
+                q = 1 / other[0].val
+            if q is not None:
+                table = {Fraction(1, 2): (1, 0), Fraction(1): (0, -1), Fraction(3, 2): (-1, 0), Fraction(2): (0, 1), Fraction(0): (0, 1), Fraction(-1, 2): (-1, 0), Fraction(-1): (0, -1)}
+                if q in table:
+                    return C(table[q][0]) if o == "sin" else C(table[q][1])
+    if a.op == "mod" and _is_two_pi_multiple(a.args[1]):
+        return _trig(o, a.args[0])  # sin and cos have period 2 pi
     if a.op == "atan2":
         y, x = normalize(a.args[0]), normalize(a.args[1])
         h = sqrt_rat(x * x + y * y)
@@ -459,6 +476,15 @@ def _trig(o: str, a: T) -> Rat:
             return s1 * c2 + sg * c1 * s2
         return c1 * c2 - sg * s1 * s2
     raise AnalysisError(f"algebra: {o} of {a!r} is outside the decidable class")
+
+
+def _is_two_pi_multiple(t: T) -> bool:
+    if t.op == "mul" and len(t.args) == 2:
+        a, b = t.args
+        for x, y in ((a, b), (b, a)):
+            if x.op == "pi" and y.op == "num" and y.val != 0 and (y.val / 2).denominator == 1:
+                return True
+    return False
 
 
 # ------------------------------------------------------------------------------------------ vectors (lists of 3 Rat)
@@ -583,6 +609,13 @@ def eval_term(t, point: dict) -> float:
         return float(t.val)
     if o == "var":
         return point[t.val]
+    if o == "pi":
+        return math.pi
+    if o == "piecewise":
+        for k in range(0, len(t.args), 2):
+            if eval_term(t.args[k + 1], point):
+                return eval_term(t.args[k], point)
+        raise ValueError("no branch of the Piecewise applies")
     a = [eval_term(x, point) for x in t.args] if o not in ("fun", "diff") else []
     if o == "add":
         return a[0] + a[1]
@@ -601,7 +634,23 @@ def eval_term(t, point: dict) -> float:
     if o in ("sin", "cos", "tan", "acos", "asin"):
         return getattr(math, o)(a[0])
     if o == "atan2":
+        if a[0] == 0 and a[1] == 0:
+            raise ValueError("atan2(0, 0)")
         return math.atan2(a[0], a[1])
+    if o == "mod":
+        return a[0] % a[1]  # SymPy's Mod takes the sign of the divisor, like Python's %
+    if o in ("eq", "ne", "gt", "ge", "lt", "le"):
+        import operator
+        return 1.0 if getattr(operator, o)(a[0], a[1]) else 0.0
+    if o == "and":
+        return 1.0 if all(a) else 0.0
+    if o == "or":
+        return 1.0 if any(a) else 0.0
+    if o == "piecewise":
+        for k in range(0, len(a), 2):
+            if a[k + 1]:
+                return a[k]
+        raise ValueError("no branch of the Piecewise applies")
     raise AnalysisError(f"algebra: cannot evaluate {t!r} numerically")
 
 
